@@ -212,14 +212,12 @@ def r17f(ctx):
     ctx.instance("R17f", f"{ex.file}:{ex.ident}", "export dialect default is 'excel' (what csv.Sniffer falls back to / csv.reader's default)", ok=ok)
     if not ok:
         ctx.report("R17f", ex, ex.node, "dialect default", "to_csv no longer defaults to the excel dialect the importer expects")
-    src = ast.unparse(ex.node)
-    ok = "self.iter_values()" in src and "writerow(line)" in src and "value = ''" in src
+    from ..shape import has
+    ok = has(ex.node, "for V_ in self.iter_values():\n    REST_") and has(ex.node, "W_.writerow(L_)") and has(ex.node, "if X_ is None:\n    X_ = ''")
     ctx.instance("R17f", f"{ex.file}:{ex.ident}", "one writerow per table row of iter_values(); None written as ''", ok=ok, nontrivial=True)
     if not ok:
         ctx.report("R17f", ex, ex.node, "export loop", "to_csv no longer writes one CSV row per table row with None as the empty string")
-    isrc = ast.unparse(im.node)
-    ok = "csv.reader" in isrc or "reader(" in isrc
-    ok = ok and ("append_row" in isrc or "set_row" in isrc or "extend_rows" in isrc)
+    ok = has(im.node, "csv.reader(D_, X_)") and (has(im.node, "T_.append_row(R_, clone=False)") or has(im.node, "T_.append_row(R_)"))
     ctx.instance("R17f", f"{im.file}:{im.ident}", "one table row per CSV line, appended in order", ok=ok, nontrivial=True)
     if not ok:
         ctx.report("R17f", im, im.node, "import loop", "import_from_csv no longer appends one row per CSV line in order")
